@@ -613,6 +613,10 @@ func (s *Scope) evalCall(e ECall) Term {
 			return T("("+name+" "+a.S+")", SBool)
 		case "iserr":
 			return s.Eval(e.Args[0])
+		case "trimbyte": // the byte class strings.TrimSpace removes (same uninterpreted predicate as the library model)
+			a := s.Eval(e.Args[0])
+			w.DeclareFun("isTrimByte", []Sort{SInt}, SBool)
+			return T("(isTrimByte "+a.S+")", SBool)
 		case "runecount": // number of runes of a string (uninterpreted; 0 <= runecount(s) <= len(s)); len([]rune(s)) in code
 			a := s.Eval(e.Args[0])
 			return x.runeCount(a, nil)
@@ -755,6 +759,11 @@ func (s *Scope) evalCall(e ECall) Term {
 				return r
 			}
 		}
+	}
+	if fpkg == "math" && fname == "Sqrt" {
+		// same symbol as the library model of math.Sqrt
+		a := ToReal(args()[0])
+		return T("(sqrtU "+a.S+")", SReal)
 	}
 	if fpkg == "strings" && fname == "TrimSpace" {
 		// same term the library model of strings.TrimSpace produces (a window of the argument)
